@@ -383,22 +383,64 @@ theorem outer_done (b ne : Nat) (s : List Nat) (st : EncSt) (d : DecSt) (inv : I
   rw [inv.out] at this
   omega
 
+theorem encInner_succ (m b : Nat) : ∀ (post : List Nat) (st : EncSt),
+    st.delta + post.length ≤ maxInt32 → ∃ st', encInner m b post st = some st'
+  | [], st, _ => ⟨st, by simp [encInner]⟩
+  | r :: post, st, h => by
+    simp only [List.length_cons] at h
+    rw [encInner]
+    by_cases hlt : r < m
+    · simp only [hlt, if_true]
+      rw [if_neg (by omega)]
+      exact encInner_succ m b post _ (by simp; omega)
+    · simp only [hlt, if_false]
+      by_cases hgt : r > m
+      · simp only [hgt, if_true]
+        exact encInner_succ m b post _ (by omega)
+      · simp only [hgt, if_false]
+        exact encInner_succ m b post _ (by simp; omega)
+
+theorem filter_lt_le_mono (m : Nat) : ∀ (s : List Nat),
+    (s.filter (fun r => decide (r < m))).length ≤ (s.filter (fun r => decide (r ≤ m))).length
+  | [] => by simp
+  | x :: xs => by
+    have ih := filter_lt_le_mono m xs
+    by_cases h1 : x < m
+    · have : x ≤ m := by omega
+      simp [List.filter_cons, h1, this]; exact ih
+    · by_cases h2 : x ≤ m
+      · simp [List.filter_cons, h1, h2]; omega
+      · simp [List.filter_cons, h1, h2]; exact ih
+
+theorem filter_lt_le (m : Nat) : ∀ (s : List Nat), m ∈ s →
+    (s.filter (fun r => decide (r < m))).length < (s.filter (fun r => decide (r ≤ m))).length
+  | [], h => by simp at h
+  | r :: s, h => by
+    have hmono := filter_lt_le_mono m s
+    rcases List.mem_cons.mp h with rfl | h
+    · simp [List.filter_cons]; omega
+    · have ih := filter_lt_le m s h
+      by_cases h1 : r < m
+      · have : r ≤ m := by omega
+        simp [List.filter_cons, h1, this]; exact ih
+      · by_cases h2 : r ≤ m
+        · simp [List.filter_cons, h1, h2]; omega
+        · simp [List.filter_cons, h1, h2]; exact ih
+
+/-- The encoder's outer loop succeeds (no int32 overflow, enough fuel) on every string of at most
+1024 code points ≤ U+10FFFF, and the decoder replays its output to `s`. -/
 theorem outer (s : List Nat) (b : Nat) (hs : ∀ r ∈ s, r ≤ maxRune) (hlen : s.length ≤ maxOutput) :
-    ∀ (fuel ne : Nat) (st : EncSt) (d : DecSt) (a : List Nat),
-      InvO b ne s st d → encOuter fuel s b ne st = some a →
-      ∃ E, a = st.out ++ E ∧ (∀ c ∈ E, c ≠ hyphen) ∧ decodeAll E d = some s
-  | 0, ne, st, d, a, inv, h => by
-    unfold encOuter at h
-    split at h
-    · simp at h
-    · rename_i hh
-      simp only [Option.some.injEq] at h
-      exact ⟨[], by simp [h], by simp, outer_done b ne s st d inv hh⟩
-  | fuel + 1, ne, st, d, a, inv, h => by
-    unfold encOuter at h
+    ∀ (fuel ne : Nat) (st : EncSt) (d : DecSt),
+      s.length - st.h ≤ fuel → InvO b ne s st d →
+      ∃ a E, encOuter fuel s b ne st = some a ∧ a = st.out ++ E ∧ (∀ c ∈ E, c ≠ hyphen) ∧
+        decodeAll E d = some s
+  | 0, ne, st, d, hf, inv => by
+    have hh : ¬ st.h < s.length := by omega
+    refine ⟨st.out, [], by simp [encOuter, hh], by simp, by simp, outer_done b ne s st d inv hh⟩
+  | fuel + 1, ne, st, d, hf, inv => by
+    rw [encOuter]
     by_cases hh : st.h < s.length
-    · simp only [hh, if_true] at h
-      -- some code point is still to be handled
+    · simp only [hh, if_true]
       have hex : ∃ r ∈ s, r ≥ ne := by
         by_contra hcon
         simp only [not_exists, not_and, Nat.not_le] at hcon
@@ -410,71 +452,83 @@ theorem outer (s : List Nat) (b : Nat) (hs : ∀ r ∈ s, r ≤ maxRune) (hlen :
       obtain ⟨hmem, hge, hmin⟩ := minGE_spec ne s hex
         (fun r hr => by have := hs r hr; unfold maxRune at this; unfold maxInt32; omega)
       generalize hmdef : minGE ne s = m at *
-      cases hmadd : madd st.delta (m - ne) (st.h + 1) with
-      | none => simp [hmadd] at h
-      | some dlt =>
-        simp only [hmadd] at h
-        have hdlt := madd_inv _ _ _ _ hmadd
-        cases hin : encInner m b s { st with delta := dlt } with
-        | none => simp [hin] at h
-        | some st1 =>
-          simp only [hin] at h
-          have hcongr : s.filter (fun r => decide (r < ne)) = s.filter (fun r => decide (r < m)) := by
-            apply List.filter_congr
-            intro r hr
-            by_cases hr1 : r < ne
-            · have : r < m := by omega
-              simp [hr1, this]
-            · have := hmin r hr (by omega)
-              have : ¬ r < m := by omega
-              simp [hr1, this]
-          have hnle := inv.nle
-          have invI : InvI b m [] s { st with delta := dlt } d := {
-            out := by rw [inv.out, hcongr]; simp
-            h := inv.h, bias := inv.bias
-            nle := by omega
-            pos := by
-              have hp := inv.pos
-              have hh' := inv.h
-              simp only [List.filter_nil, List.length_nil, Nat.add_zero]
-              rw [hdlt, ← Nat.add_assoc, hp, hh', ← Nat.add_mul]
-              congr 1; omega
-            hb := inv.hb, first := inv.first }
-          obtain ⟨E1, d1, ho1, hy1, hdec1, inv1⟩ :=
-            inner b m (hs m hmem) s [] _ st1 d (by simpa using hlen) invI hin
-          simp only [List.nil_append, List.filter_nil, List.append_nil] at inv1
-          have hcongr2 : s.filter (fun r => decide (r ≤ m)) = s.filter (fun r => decide (r < m + 1)) := by
-            apply List.filter_congr
-            intro r _
-            by_cases hr1 : r ≤ m
-            · have : r < m + 1 := by omega
-              simp [hr1, this]
-            · have : ¬ r < m + 1 := by omega
-              simp [hr1, this]
-          have invO : InvO b (m + 1) s { st1 with delta := st1.delta + 1 } d1 := {
-            out := by rw [inv1.out, hcongr2]; simp
-            h := inv1.h, bias := inv1.bias
-            nle := by have := inv1.nle; omega
-            pos := by
-              have hp := inv1.pos
-              have ho := inv1.out
-              have hnl := inv1.nle
-              have hl : (s.filter (fun r => decide (r ≤ m))).length = d1.out.length := by rw [ho]; simp
-              rw [hl] at hp
-              have : m + 1 - d1.n = (m - d1.n) + 1 := by omega
-              rw [this, Nat.add_mul]
-              simp only [Nat.one_mul]
-              omega
-            hb := inv1.hb, first := inv1.first }
-          obtain ⟨E2, ha, hy2, hdec2⟩ := outer s b hs hlen fuel (m + 1) _ d1 a invO h
-          refine ⟨E1 ++ E2, by rw [ha]; simp [ho1], ?_, ?_⟩
-          · intro c hc
-            rcases List.mem_append.mp hc with hc | hc
-            · exact hy1 c hc
-            · exact hy2 c hc
-          · rw [hdec1, hdec2]
-    · simp only [hh, if_false, Option.some.injEq] at h
-      exact ⟨[], by simp [h], by simp, outer_done b ne s st d inv hh⟩
+      have hnle := inv.nle
+      have hmR := hs m hmem
+      -- the adjusted delta is exactly what moves the decoder to (m, slot 0); it does not overflow
+      have hp := inv.pos
+      have hh' := inv.h
+      have hxle : d.out.length + 1 ≤ 1024 := by unfold maxOutput at hlen; omega
+      have hprod : (m - d.n) * (d.out.length + 1) ≤ 1114111 * 1024 :=
+        Nat.mul_le_mul (by unfold maxRune at hmR; omega) hxle
+      have hsum : d.i + (st.delta + (m - ne) * (st.h + 1)) = (m - d.n) * (d.out.length + 1) := by
+        rw [← Nat.add_assoc, hp, hh', ← Nat.add_mul]
+        congr 1; omega
+      rw [madd_some st.delta (m - ne) (st.h + 1) (by unfold maxInt32; omega)]
+      simp only
+      obtain ⟨st1, hin⟩ := encInner_succ m b s { st with delta := st.delta + (m - ne) * (st.h + 1) }
+        (by unfold maxInt32; unfold maxOutput at hlen; simp only; omega)
+      rw [hin]
+      simp only
+      have hcongr : s.filter (fun r => decide (r < ne)) = s.filter (fun r => decide (r < m)) := by
+        apply List.filter_congr
+        intro r hr
+        by_cases hr1 : r < ne
+        · have : r < m := by omega
+          simp [hr1, this]
+        · have := hmin r hr (by omega)
+          have : ¬ r < m := by omega
+          simp [hr1, this]
+      have invI : InvI b m [] s { st with delta := st.delta + (m - ne) * (st.h + 1) } d := {
+        out := by rw [inv.out, hcongr]; simp
+        h := inv.h, bias := inv.bias
+        nle := by omega
+        pos := by simpa using hsum
+        hb := inv.hb, first := inv.first }
+      obtain ⟨E1, d1, ho1, hy1, hdec1, inv1⟩ :=
+        inner b m hmR s [] _ st1 d (by simpa using hlen) invI hin
+      have hcongr2 : s.filter (fun r => decide (r ≤ m)) = s.filter (fun r => decide (r < m + 1)) := by
+        apply List.filter_congr
+        intro r _
+        by_cases hr1 : r ≤ m
+        · have : r < m + 1 := by omega
+          simp [hr1, this]
+        · have : ¬ r < m + 1 := by omega
+          simp [hr1, this]
+      have ho := inv1.out
+      simp only [List.nil_append, List.filter_nil, List.append_nil] at ho
+      have invO : InvO b (m + 1) s { st1 with delta := st1.delta + 1 } d1 := {
+        out := by rw [ho, hcongr2]
+        h := inv1.h, bias := inv1.bias
+        nle := by have := inv1.nle; omega
+        pos := by
+          have hp1 := inv1.pos
+          have hnl := inv1.nle
+          simp only [List.nil_append] at hp1
+          have hl : (s.filter (fun r => decide (r ≤ m))).length = d1.out.length := by rw [ho]
+          rw [hl] at hp1
+          have : m + 1 - d1.n = (m - d1.n) + 1 := by omega
+          rw [this, Nat.add_mul]
+          simp only [Nat.one_mul]
+          omega
+        hb := inv1.hb, first := inv1.first }
+      -- progress: at least the code point m itself was handled
+      have hprog : s.length - st1.h ≤ fuel := by
+        have h1 := inv1.h
+        rw [ho] at h1
+        have h0 := inv.h
+        rw [inv.out, hcongr] at h0
+        have := filter_lt_le m s hmem
+        omega
+      obtain ⟨a, E2, henc, ha, hy2, hdec2⟩ :=
+        outer s b hs hlen fuel (m + 1) { st1 with delta := st1.delta + 1 } d1 (by simpa using hprog) invO
+      refine ⟨a, E1 ++ E2, henc, by rw [ha]; simp [ho1], ?_, ?_⟩
+      · intro c hc
+        rcases List.mem_append.mp hc with hc | hc
+        · exact hy1 c hc
+        · exact hy2 c hc
+      · rw [hdec1, hdec2]
+    · simp only [hh, if_false]
+      exact ⟨st.out, [], rfl, by simp, by simp, outer_done b ne s st d inv hh⟩
 
 /-! ### assembling `decodeRunes (encode s) = s` -/
 
@@ -511,7 +565,9 @@ theorem decodeRunes_encode (s a : List Nat) (hs : ∀ r ∈ s, r ≤ maxRune) (h
     pos := by simp
     hb := Nat.le_refl _
     first := by simp }
-  obtain ⟨E, ha, hy, hdec⟩ := outer s B.length hs hlen _ _ _ _ a inv0 h
+  obtain ⟨a', E, henc, ha, hy, hdec⟩ := outer s B.length hs hlen s.length _ _ _ (by simp) inv0
+  have haa : a = a' := by rw [henc] at h; exact (Option.some.inj h).symm
+  subst haa
   simp only at ha
   unfold decodeAll at hdec
   simp only at hdec
